@@ -219,3 +219,78 @@ def run_case(desc, ctx):
                 compare("single_sample", rows_T[f][0][i:i + 1], rows_T[f][1][i:i + 1], r1, M1)
             else:
                 compare("single_sample", rows_T[f][0], rows_T[f][1], r1, M1)
+
+    # (d) entirely missing samples in the data to transform, then complete data again: the rows of the complete samples
+    #     are unaffected, the missing ones are NaN or absent, and the following transform (whose sample count equals the
+    #     number of valid samples of the previous call) is still labelled by its own data
+    if n0 >= 3 and not multi:
+        ctx.event("missing_sample_then_complete")
+        j = desc["pick"] % n0
+        keep = [i for i in range(n0) if i != j]
+
+        def blank(x):
+            cplx = np.iscomplexobj(x.to_array() if isinstance(x, xr.Dataset) else x)
+            x = x.astype(complex) if cplx else x.astype(float)
+            return x.where(~xr.DataArray(np.arange(x.sizes[d0]) == j, dims=[d0]))
+
+        An = [L.map_items(o, blank) for o in new]
+        Bn = [L.map_items(o, lambda x: x.isel({d0: keep})) for o in new]
+        TAn = call(ctx, "transform_raises", transform, An, disc=dict(disc, part="missing_sample"))
+        TBn = call(ctx, "transform_raises", transform, Bn, disc=dict(disc, part="after_missing_sample"))
+        for tag, TT in (("missing_sample", TAn), ("after_missing_sample", TBn)):
+            if isinstance(TT, Failed):
+                continue
+            for f in range(nf):
+                if not (isinstance(TT[f], xr.DataArray) and set(sdims) <= set(TT[f].dims)):
+                    ctx.violation("output_dims", f"{tag}: field {f}: dims {getattr(TT[f], 'dims', None)}", **disc)
+                    continue
+                rk, Mt = rows_of(TT[f], sdims)
+                full_rk, full_M = rows_T[f]
+                if tag == "after_missing_sample":
+                    ref_da = items_of(Bn[f])[0][2]
+                    exp_rk, _, _ = flatten_da(ref_da.isel({d: 0 for d in ref_da.dims if d not in sdims}, drop=True), sdims)
+                    ok = (rk == exp_rk) if positional else (set(rk) == set(exp_rk) and len(rk) == len(exp_rk))
+                    if not ctx.check(ok, "labels_after_missing_sample", f"field {f}: {len(rk)} sample labels {rk[:3]}.. != the new data's {len(exp_rk)} {exp_rk[:3]}..", **disc):
+                        continue
+                    ctx.check(not np.isnan(Mt).any(), "spurious_nan", f"field {f}: NaN in scores of complete samples (after a transform with a missing sample)", **disc)
+                    fa = {r: i for i, r in enumerate(full_rk)} if not positional else None
+                    ref = full_M[keep] if positional else full_M[[fa[r] for r in rk]]
+                    e = relerr(Mt, ref, scale=scale)
+                    ctx.check(e <= 1e-8, "after_missing_sample", f"field {f}: rel err {e:.3g}", **disc)
+                else:
+                    # complete samples keep their numbers; the missing one is NaN or absent
+                    if positional:
+                        if len(rk) == n0:
+                            ctx.check(np.all(np.isnan(Mt[j])), "missing_sample_got_numbers", f"field {f}", **disc)
+                            got = Mt[keep]
+                        elif len(rk) == n0 - 1:
+                            got = Mt
+                        else:
+                            ctx.violation("labels_with_missing_sample", f"field {f}: {len(rk)} samples returned for {n0} given (one missing)", **disc)
+                            continue
+                        e = relerr(got, full_M[keep], scale=scale)
+                    else:
+                        fa = {r: i for i, r in enumerate(full_rk)}
+                        if not ctx.check(all(r in fa for r in rk), "labels_with_missing_sample", f"field {f}: unknown sample labels returned", **disc):
+                            continue
+                        rows = [i for i, r in enumerate(rk) if not np.all(np.isnan(Mt[i]))]
+                        e = relerr(Mt[rows], full_M[[fa[rk[i]] for i in rows]], scale=scale)
+                        ctx.check(len(rows) == len(full_rk) - len(full_rk) // n0, "labels_with_missing_sample",
+                                  f"field {f}: {len(rows)} complete samples returned, expected {len(full_rk) - len(full_rk) // n0}", **disc)
+                    ctx.check(e <= 1e-8, "missing_sample_changes_others", f"field {f}: rel err {e:.3g}", **disc)
+
+    # (e) cross-set models: one field transformed alone gives the rows of the joint transform, labelled by its own data
+    #     (the previous call transformed other samples, so nothing can be borrowed from it)
+    if not multi and nf == 2:
+        ctx.event("single_field")
+        for f in (1, 0):  # (Y first: the samples X went through last are then other ones)
+            t = call(ctx, "transform_raises", ad.transform_one, f, new[f], norm, disc=dict(disc, part=f"field_{'XY'[f]}_alone"))
+            if isinstance(t, Failed):
+                continue
+            if not (isinstance(t, xr.DataArray) and set(sdims) <= set(t.dims)):
+                ctx.violation("output_dims", f"field {f} alone: dims {getattr(t, 'dims', None)}", **disc)
+                continue
+            r1, M1 = rows_of(t, sdims)
+            compare("single_field", rows_T[f][0], rows_T[f][1], r1, M1)
+            if not positional:
+                ctx.check(len(r1) == len(rows_T[f][0]), "single_field_labels", f"field {f} alone: {len(r1)} samples vs {len(rows_T[f][0])}", **disc)
